@@ -662,11 +662,12 @@ func main() {
 			Pre    []string `json:"pre"`
 			Script string   `json:"script"`
 			Abs    string   `json:"abs"`
+			Argv   []string `json:"argv"`
 		}
 		if err := json.Unmarshal(b, &rj); err != nil {
 			panic(err)
 		}
-		jobs = append(jobs, Job{Cfg: rj.Cfg, Entry: rj.Entry, Kind: "replay", Form: "replay", Pre: rj.Pre, Script: rj.Script, Abs: rj.Abs})
+		jobs = append(jobs, Job{Cfg: rj.Cfg, Entry: rj.Entry, Kind: "replay", Form: "replay", Pre: rj.Pre, Script: rj.Script, Abs: rj.Abs, Argv: rj.Argv})
 	} else {
 		for _, cfg := range []string{"bare", "std", "full"} {
 			es, live := entriesOf(cfg)
@@ -770,15 +771,33 @@ func main() {
 		}
 	}
 	var binDefined []string
+	var cmdDiffs []cmdlineDiff
 	if zygoBin != "" && a.Replay == "" {
 		for k, v := range runBinary(root, zygoBin, binjobs, stats) {
 			results[k] = v
 		}
 		all := append(append([]string{}, cands...), specials...)
 		binDefined, _ = binaryNames(root, zygoBin, all)
+		cmdDiffs = runCmdlines(root, zygoBin, a.Tier, rng.Fork(), all, specials, bound["std"], &jobs, results, stats)
 	} else if zygoBin != "" {
 		// replay against the binary as well when the configuration asks for it
-		for k, v := range runBinary(root, zygoBin, binjobs, stats) {
+		var plain []Job
+		for _, j := range binjobs {
+			if len(j.Argv) == 0 {
+				plain = append(plain, j)
+				continue
+			}
+			dir := filepath.Join(root, "cmdline")
+			os.MkdirAll(dir, 0755)
+			can := NewCanary(filepath.Join(dir, "world"), "C1")
+			os.MkdirAll(can.Dir, 0755)
+			if err := can.Install(); err != nil {
+				panic(err)
+			}
+			r := &cmdRunner{zygoBin: zygoBin, dir: dir, can: can, stats: stats}
+			results[j.ID] = r.canary(cmdShape(j.Argv), j)
+		}
+		for k, v := range runBinary(root, zygoBin, plain, stats) {
 			results[k] = v
 		}
 	}
@@ -807,7 +826,7 @@ func main() {
 			}
 			if len(findings) < 4000 {
 				findings = append(findings, map[string]interface{}{"id": j.ID, "cfg": j.Cfg, "entry": j.Entry, "kind": j.Kind, "form": j.Form,
-					"pre": j.Pre, "script": j.Script, "abs": j.Abs, "effects": r.Effects, "class": r.Class, "detail": r.Detail})
+					"pre": j.Pre, "script": j.Script, "abs": j.Abs, "argv": j.Argv, "effects": r.Effects, "class": r.Class, "detail": r.Detail})
 			}
 		}
 	}
@@ -817,7 +836,7 @@ func main() {
 	out.Extra["entries_candidate_names"] = len(cands)
 	if bindingsOut != "" {
 		b, _ := json.MarshalIndent(map[string]interface{}{"configs": dumps, "binary_defined": binDefined, "binary_probed": zygoBin != "" && a.Replay == "",
-			"effect_cases": findings, "anomalies": anomalies}, "", " ")
+			"effect_cases": findings, "anomalies": anomalies, "cmdline_name_diffs": cmdDiffs}, "", " ")
 		os.WriteFile(bindingsOut, b, 0644)
 	}
 	out.Close(a.Stats)
